@@ -328,6 +328,7 @@ func c18Main(args []string) {
 		panic(err)
 	}
 	defer os.RemoveAll(dir)
+	ev.AtExit(func() { os.RemoveAll(dir) })
 	jobsFile := filepath.Join(dir, "jobs.json")
 	if b, err := json.Marshal(jobs); err != nil || os.WriteFile(jobsFile, b, 0o644) != nil {
 		panic("cannot write jobs file")
